@@ -37,7 +37,7 @@ class Gen:
         self.order = ["g"]
         self.txdef = {}            # tx name -> op (for copies)
         self.n = 0
-        self.opts = dict(p_tx=0.7, max_tx=3, p_copy=0.0, p_same_cb=0.0, p_fork=0.4, p_unusual=0.15, max_height=None, zero_rewards=False, p_deep_fork=0.0, deep_min=11, p_sibling=0.0,
+        self.opts = dict(p_tx=0.7, max_tx=3, p_copy=0.0, p_same_cb=0.0, p_fork=0.4, p_unusual=0.15, max_height=None, zero_rewards=False, p_deep_fork=0.0, deep_min=11, p_sibling=0.0, c05_extra_tags=None,
                          prefix="", dts=None)
         self.opts.update(opts)
 
@@ -434,10 +434,11 @@ class Gen:
             h = p.height + 1
             boundary = h % self.period == 0
             tags = ["target+1", "target-1", "height+1", "height-1", "cb_height+1", "cb_height-1", "ts=parent", "ts<parent",
-                    "future31", "pow_bad", "ev0", "ev1", "ev2", "ev_sibling", "unknown_parent", "merkle_other",
+                    "future31", "pow_bad", "ev0", "ev1", "ev2", "ev_sibling", "ev_forged_summary", "unknown_parent", "merkle_other",
                     "unretargeted" if boundary else "retargeted_anyway"]
             if boundary:
                 tags += ["target_other_chain"] * 4
+            tags += list(self.opts.get("c05_extra_tags") or [])
             tag = r.choice(tags)
             best = self.best()
             if boundary and p.label not in best.chain and r.random() < 0.6:
@@ -503,6 +504,8 @@ class Gen:
                 hdr["pow"] = "bad"
             elif tag in ("ev0", "ev1", "ev2"):
                 hdr["evidence"] = [int(tag[2]), r.randrange(256)]
+            elif tag == "ev_forged_summary":
+                hdr["evidence"] = ["forged_summary"]
             elif tag == "ev_sibling":
                 sibs = [l for l in self.order if self.L[l].parent == p.label]
                 if not sibs:
